@@ -44,6 +44,23 @@ pub proof fn lemma_id_eq(a: NodeId, b: NodeId)
     axiom_nonzero_ext(a.index1, b.index1);
 }
 
+/// core's `impl<T> From<T> for Option<T>` wraps in `Some`; `impl<T> From<T> for T` is the identity
+#[verifier::external_body]
+pub proof fn axiom_into_some<T>(x: T)
+    ensures
+        <T as vstd::std_specs::convert::IntoSpec<Option<T>>>::obeys_into_spec(),
+        <T as vstd::std_specs::convert::IntoSpec<Option<T>>>::into_spec(x) == Some(x),
+{
+}
+
+#[verifier::external_body]
+pub proof fn axiom_into_self<T>(x: T)
+    ensures
+        <T as vstd::std_specs::convert::IntoSpec<T>>::obeys_into_spec(),
+        <T as vstd::std_specs::convert::IntoSpec<T>>::into_spec(x) == x,
+{
+}
+
 // derived `PartialEq` on plain data is structural equality (R6)
 impl vstd::std_specs::cmp::PartialEqSpecImpl for NodeId {
     open spec fn obeys_eq_spec() -> bool {
@@ -1339,5 +1356,135 @@ pub proof fn lemma_shift_subtree<T>(s: Seq<Node<T>>, w: Ranks, x: int, p: int)
         }
     }
     assert(ranked(s, w2));
+}
+
+// ---- ancestors (C02, C05) ---------------------------------------------------------------------
+/// slot a is slot y or one of its ancestors
+pub open spec fn anc<T>(s: Seq<Node<T>>, a: int, y: int) -> bool {
+    exists|w: Ranks| ranked(s, w) && in_sub(s, w, a, y)
+}
+
+pub proof fn lemma_in_sub_indep<T>(s: Seq<Node<T>>, w1: Ranks, w2: Ranks, r: int, y: int)
+    requires
+        ranked(s, w1),
+        ranked(s, w2),
+    ensures
+        in_sub(s, w1, r, y) == in_sub(s, w2, r, y),
+    decreases (w1.depth)(y),
+{
+    if y != r && 0 <= y < s.len() && s[y].parent is Some {
+        assert(ranked_at(s, w1, y));
+        assert(ranked_at(s, w2, y));
+        lemma_in_sub_indep(s, w1, w2, r, s[y].parent->0.idx());
+    }
+}
+
+pub proof fn lemma_anc_iff<T>(s: Seq<Node<T>>, w: Ranks, a: int, y: int)
+    requires
+        ranked(s, w),
+    ensures
+        anc(s, a, y) == in_sub(s, w, a, y),
+{
+    if anc(s, a, y) {
+        let w1 = choose|w1: Ranks| ranked(s, w1) && in_sub(s, w1, a, y);
+        lemma_in_sub_indep(s, w1, w, a, y);
+    }
+}
+
+/// cutting the parent link of r does not change who has r as an ancestor
+pub proof fn lemma_in_sub_frame<T>(o: Seq<Node<T>>, n: Seq<Node<T>>, w: Ranks, r: int, y: int)
+    requires
+        n.len() == o.len(),
+        forall|i: int| 0 <= i < o.len() && i != r ==> (#[trigger] n[i]).parent == o[i].parent,
+    ensures
+        in_sub(n, w, r, y) == in_sub(o, w, r, y),
+    decreases (w.depth)(y),
+{
+    if y != r && 0 <= y < o.len() && o[y].parent is Some && (w.depth)(o[y].parent->0.idx()) < (w.depth)(y) {
+        lemma_in_sub_frame(o, n, w, r, o[y].parent->0.idx());
+    }
+}
+
+/// every link of a live node names a live node of the current generation
+pub proof fn lemma_links_live<T>(s: Seq<Node<T>>, i: int)
+    requires
+        links_ok(s),
+        0 <= i < s.len(),
+    ensures
+        tgt_ok(s, s[i].parent) && tgt_ok(s, s[i].previous_sibling) && tgt_ok(s, s[i].next_sibling) && tgt_ok(s, s[i].first_child)
+            && tgt_ok(s, s[i].last_child),
+        s[i].stamp.removed() ==> no_links(s[i]),
+{
+    reveal(node_ok);
+    assert(node_ok(s, i));
+}
+
+/// the position "after the last child of p" is a gap
+pub proof fn lemma_gap_at_end<T>(s: Seq<Node<T>>, p: NodeId)
+    requires
+        links_ok(s),
+        0 <= p.idx() < s.len(),
+        s[p.idx()].stamp == p.stamp,
+        !p.stamp.removed(),
+    ensures
+        is_gap(s, Some(p), s[p.idx()].last_child, None),
+        is_gap(s, Some(p), None, s[p.idx()].first_child),
+        s[p.idx()].last_child is Some ==> s[s[p.idx()].last_child->0.idx()].parent is Some,
+        s[p.idx()].first_child is Some ==> s[s[p.idx()].first_child->0.idx()].parent is Some,
+{
+    reveal(node_ok);
+    assert(node_ok(s, p.idx()));
+    if s[p.idx()].last_child is Some {
+        let c = s[p.idx()].last_child->0.idx();
+        assert(node_ok(s, c));
+        lemma_id_eq(s[c].parent->0, p);
+    }
+    if s[p.idx()].first_child is Some {
+        let c = s[p.idx()].first_child->0.idx();
+        assert(node_ok(s, c));
+        lemma_id_eq(s[c].parent->0, p);
+    }
+}
+
+/// C05: when a checked insert must refuse
+pub open spec fn insert_impossible<T>(s: Seq<Node<T>>, target: NodeId, moved: NodeId) -> bool {
+    moved == target || s[target.idx()].stamp.removed() || s[moved.idx()].stamp.removed() || anc(s, moved.idx(), target.idx())
+}
+
+/// invariant of the `ancestors().any(..)` loops of the checked inserts
+pub open spec fn anc_loop_inv<T>(s: Seq<Node<T>>, w: Ranks, t: int, m: int, cur: Option<NodeId>, any: bool) -> bool {
+    &&& cur is Some ==> tgt_ok(s, cur)
+    &&& any ==> in_sub(s, w, m, t)
+    &&& !any ==> (in_sub(s, w, m, t) == (cur is Some && in_sub(s, w, m, cur->0.idx())))
+}
+
+pub open spec fn anc_loop_measure(w: Ranks, cur: Option<NodeId>) -> nat {
+    if cur is Some {
+        ((w.depth)(cur->0.idx()) + 1) as nat
+    } else {
+        0
+    }
+}
+
+pub proof fn lemma_anc_loop_step<T>(s: Seq<Node<T>>, w: Ranks, t: int, moved: NodeId, cur: NodeId)
+    requires
+        links_ok(s),
+        ranked(s, w),
+        anc_loop_inv(s, w, t, moved.idx(), Some(cur), false),
+        0 <= moved.idx() < s.len(),
+        s[moved.idx()].stamp == moved.stamp,
+    ensures
+        moved == cur ==> in_sub(s, w, moved.idx(), t),
+        tgt_ok(s, s[cur.idx()].parent),
+        moved != cur ==> anc_loop_inv(s, w, t, moved.idx(), s[cur.idx()].parent, false),
+        anc_loop_measure(w, s[cur.idx()].parent) < anc_loop_measure(w, Some(cur)),
+{
+    lemma_links_live(s, cur.idx());
+    assert(ranked_at(s, w, cur.idx()));
+    if moved != cur {
+        if moved.idx() == cur.idx() {
+            lemma_id_eq(moved, cur);
+        }
+    }
 }
 
